@@ -128,6 +128,7 @@ package harfbuzz
 //@ func Buffer.setGlyphFlags C18
 //@   mode bv
 //@   requires [range] 0 <= start && start <= end && start <= len(b.Info)
+//@   requires [out-range] implies(fromOutBuffer && b.haveOutput, 0 <= b.idx && b.idx <= min(end, len(b.Info)) && start <= len(b.outInfo))
 //@   ensures [short-range-untouched] implies(interior && !fromOutBuffer && min(end0, len(b.Info))-start < 2, forall(k, 0, len(b.Info), b.Info[k].Mask == old(b.Info[k].Mask)))
 //@   ensures [interior-flags-non-minimal] implies(interior && !fromOutBuffer && old(b.ClusterLevel == Characters || monotoneRange(b.Info, start, min(end0, len(b.Info)))),
 //@     | forall(k, start, old(min(end0, len(b.Info))), implies(exists(l, start, old(min(end0, len(b.Info))), mark(l) && old(b.Info[l].Cluster < b.Info[k].Cluster)), b.Info[k].Mask == old(b.Info[k].Mask)|mask)))
@@ -137,7 +138,10 @@ package harfbuzz
 //@   modifies b.scratchFlags; all(GlyphInfo)
 //@   loop 1 invariant [i-range] start <= i && i <= end && end <= len(info) && sameslice(info, b.Info) && sameslice(b.Info, old(b.Info))
 //@   loop 1 invariant [done] forall(k, 0, len(info), info[k].Mask == ite(start <= k && k < i, old(b.Info[k].Mask)|mask, old(b.Info[k].Mask)) && info[k].Cluster == old(b.Info[k].Cluster))
+//@   loop 2 invariant [i-range] 0 <= start && start <= i && sameslice(outInfo, b.outInfo)
+//@   loop 3 invariant [i-range] 0 <= b.idx && b.idx <= i && i <= end && end <= len(info)
 //@   assert_at call findMinCluster#1 : [same-range] end == min(end0, len(b.Info)) && sameslice(info, b.Info)
+//@   assert_at call infosSetGlyphFlags#2 : [reference-is-minimum-of-both-parts] implies(b.ClusterLevel == Characters || (monotoneRange(info, b.idx, end) && monotoneRange(outInfo, start, len(outInfo))), forall(k, b.idx, end, arg4 <= info[k].Cluster) && forall(k, start, len(outInfo), arg4 <= outInfo[k].Cluster))
 //@   assert_at call findMinCluster#1 : [monotone-transfer] implies(monotoneRange(b.Info, start, min(end0, len(b.Info))), monotoneRange(info, start, end))
 //
 // unsafeToBreak = setGlyphFlags(UnsafeToBreak|UnsafeToConcat, start, end, interior, in place).
